@@ -257,6 +257,18 @@ def candidatesPanic (cfg : Cfg) (st : State) : Bool :=
 /-- `MinerPoolReader.GetProposeMiner(id)`: the proposer registry's record, whatever its status. -/
 def proposeMiner (cfg : Cfg) (st : State) (id : Bytes) : Option Miner := getMinerById cfg st .prop id
 
+/-- Add to a Go `map[common.Address]uint64` entry (`detail[addr] = stake + detail[addr]`, `uint64`). -/
+def mapAdd (l : List (Bytes × Nat)) (k : Bytes) (v : Nat) : List (Bytes × Nat) :=
+  (k, (v + ((l.lookup k).getD 0)) % 2 ^ 64) :: l.filter (fun e => e.1 ≠ k)
+
+/-- `MinerManager.GetValidatorsStake(members)`: stake and account are read straight from the slots of the validator
+    registry (no record check); members without stake are skipped; per-address detail and `uint64` total. -/
+def validatorsStake (cfg : Cfg) (st : State) (members : List Bytes) : Nat × List (Bytes × Nat) :=
+  members.foldl (fun acc id =>
+    let s := u64 ((st.live .val).get (slotStake cfg id))
+    if s = 0 then acc
+    else ((acc.1 + s) % 2 ^ 64, mapAdd acc.2 (toAddr ((st.live .val).get (slotAcct cfg id))) s)) (0, [])
+
 /-! ## writers -/
 
 /-- `MinerManager.UpdateMiner` (Proposal003 active). The registry is chosen by the record's type,
@@ -567,6 +579,14 @@ def runNode (cfg : Cfg) (st : State) (src : Bytes) (create2 : Option Bytes) : St
   | some st1 =>
     let r := execNode cfg st1 src create2
     if r.1 = "ok" then r else (r.1, st1)
+
+/-- `MinerManager.RemoveUnusedValidator(whitelist)` (run by `core.removeUnusedValidator` at the robin-only heights
+    Proposal010Block / Proposal019Block): every validator the (block-stale) iterator yields with status normal whose
+    id is not whitelisted is removed with `left = 0` — deleted, or aborted with stake 0 when its account is a
+    contract — and nothing is refunded. -/
+def removeUnusedValidator (cfg : Cfg) (st : State) (white : List Bytes) : State :=
+  ((iter cfg st .val).filter (fun m => m.status = statusNormal ∧ m.id ∉ white)).foldl
+    (fun st m => removeMiner cfg st m.id m.account typeValidator 0) st
 
 /-- `MinerManager.InsertMiner` (genesis: no debit, no account/id cross-check). -/
 def insertMiner (cfg : Cfg) (st : State) (info : Info) (stake status : Nat) (account : Bytes) : Int × State :=
